@@ -22,6 +22,10 @@ static BUFR_Tables *tables = NULL;
 static unsigned long sink_bytes = 0;
 static void sink_debug(const char *msg){ if(msg) sink_bytes += strlen(msg); }
 static char *g_header = NULL;
+static int g_preset = 0; /* LAZY 2 <J>: two-step expansion - the first delayed replication is first expanded with count 0 (its body becomes
+                            SKIPPED), every delayed count inside the skipped body is preset to J, then the counts are set in wire order and the subset
+                            is expanded again after each of them (the inner counts are relied on from the preset, as an application that fills a
+                            template's default counts does) */
 static int g_lazy = 0;   /* LAZY 1: zero delayed replication counts are left at their default instead of being set and expanded */
 static jmp_buf exit_jmp; static int exit_armed = 0; static int exit_called = 0;
 void __real_exit(int);
@@ -132,19 +136,57 @@ static int has_data(BufrDescriptor *b){
 }
 
 /* fill subset `pos` of dts with tokens in wire order */
+static int is_delayed_count(BufrDescriptor *b){
+  return (b->flags & FLAG_CLASS31) && (b->descriptor==31001 || b->descriptor==31002 || b->descriptor==31000 || b->descriptor==31011 || b->descriptor==31012);
+}
+static void two_step_prepare(BUFR_Dataset *dts, int pos){
+  DataSubset *ss = bufr_get_datasubset(dts,pos);
+  int c = bufr_datasubset_count_descriptor(ss), j;
+  for(j=0;j<c;j++){
+    BufrDescriptor *b = bufr_datasubset_get_descriptor(ss,j);
+    if(is_delayed_count(b) && !(b->flags & (FLAG_EXPANDED|FLAG_SKIPPED))){
+      bufr_descriptor_set_ivalue(b,0);
+      bufr_expand_datasubset(dts,pos);
+      break;
+    }
+  }
+  ss = bufr_get_datasubset(dts,pos);
+  c = bufr_datasubset_count_descriptor(ss);
+  for(j=0;j<c;j++){
+    BufrDescriptor *b = bufr_datasubset_get_descriptor(ss,j);
+    if(is_delayed_count(b) && (b->flags & FLAG_SKIPPED)){
+      if(b->value==NULL) b->value = bufr_mkval_for_descriptor(b);
+      bufr_descriptor_set_ivalue(b,g_preset);
+    }
+  }
+}
+
 static int fill_subset(BUFR_Dataset *dts, int pos, char **toks, int ntok){
-  int k = 0, j = 0;
+  int k = 0, j = 0, seen_outer = 0;
+  if(g_lazy==2) two_step_prepare(dts,pos);
   for(;;){
     DataSubset *ss = bufr_get_datasubset(dts,pos);
     int c = bufr_datasubset_count_descriptor(ss);
     if(j >= c) break;
     BufrDescriptor *b = bufr_datasubset_get_descriptor(ss,j);
     if(has_data(b)){
-      if(g_lazy && (b->flags & FLAG_CLASS31) && !(b->flags & FLAG_EXPANDED) && k < ntok && !strcmp(toks[k],"r0")
+      if(g_lazy==1 && (b->flags & FLAG_CLASS31) && !(b->flags & FLAG_EXPANDED) && k < ntok && !strcmp(toks[k],"r0")
          && (b->descriptor==31000 || b->descriptor==31001 || b->descriptor==31002)){ k++; j++; continue; }  /* count 0 is the default: an application need not set it */
+      if(g_lazy==2 && is_delayed_count(b) && k < ntok && toks[k][0]=='r'){
+        if(seen_outer && !(strtoul(toks[k]+1,NULL,16)==0 && !(b->flags & FLAG_EXPANDED) && (b->value==NULL || bufr_value_get_int32(b->value)<=0))){   /* a count 0 left unexpanded is set and expanded the ordinary way below */
+          /* a count inside the body of the outer replication: the second expansion must have used the preset count (the library does not let
+             an application change a count once expanded, and this path does not set it again): expanded, and holding the intended count */
+          if(!(b->flags & FLAG_EXPANDED) || b->value==NULL || (long)strtoul(toks[k]+1,NULL,16) != (long)bufr_value_get_int32(b->value)){
+            if(getenv("VERIF_DEBUG")) fprintf(stderr,"fill: two-step: count at j=%d desc=%06d flags=%x holds %d, preset %s\n",j,b->descriptor,b->flags,b->value?bufr_value_get_int32(b->value):-999,toks[k]);
+            return -5;
+          }
+          k++; j++; continue;
+        }
+        seen_outer = 1;
+      }
       if(k >= ntok){ if(getenv("VERIF_DEBUG")) fprintf(stderr,"fill: out of tokens at j=%d desc=%06d\n",j,b->descriptor); return -2; }
       if(set_token(b, toks[k++])){ if(getenv("VERIF_DEBUG")) fprintf(stderr,"fill: set failed at j=%d desc=%06d tok=%s flags=%x\n",j,b->descriptor,toks[k-1],b->flags); return -2; }
-      if((b->flags & FLAG_CLASS31) && !(b->flags & FLAG_EXPANDED)){
+      if((b->flags & FLAG_CLASS31) && (!(b->flags & FLAG_EXPANDED) || g_lazy==2)){
         /* delayed replication / repetition factor: expand now, as encode_delayed_repl.c does */
         bufr_expand_datasubset(dts,pos);
       }
@@ -356,7 +398,7 @@ int main(void){
   while((line=h_getline())){
     char *save=NULL; char *tok=strtok_r(line," ",&save);
     if(!tok) { printf("\n"); continue; }
-    if(!strcmp(tok,"LAZY")){ g_lazy = atoi(strtok_r(NULL," ",&save)); printf("LAZY %d\n", g_lazy); }
+    if(!strcmp(tok,"LAZY")){ char *pv; g_lazy = atoi(strtok_r(NULL," ",&save)); pv = strtok_r(NULL," ",&save); g_preset = pv ? atoi(pv) : 0; printf("LAZY %d\n", g_lazy); }
     else if(!strcmp(tok,"CFG")){ /* diagnostic switches: debug verbose meta trimzero; diagnostics go to a counting sink */
       int d=atoi(strtok_r(NULL," ",&save)), v=atoi(strtok_r(NULL," ",&save)), m=atoi(strtok_r(NULL," ",&save)), t=atoi(strtok_r(NULL," ",&save));
       bufr_set_debug_handler(sink_debug); bufr_set_output_handler(sink_debug);
